@@ -18,7 +18,7 @@ ID = 'C09'
 LEVEL = 'exploration'
 RULE = (
     'every assignment of counts {0,1,2,7} to the voxels of grids (2,2,1), (1,3,2), (2,2,2) with at least one '
-    'non-zero voxel (255 + 4095 + 65535), also scaled by 1/8 and 1/3 (float densities below 1) and as float32, x temperatures {1,77,300,1000} K queried one after the other on the SAME Volume object (first temperature repeated at the end); graph node sets for thresholds '
+    'non-zero voxel (255 + 4095 + 65535), also scaled by 1/8 and 1/3 (float densities below 1) and as float32, x temperatures {1,77,300,1000,20000} K, C / Fortran / transposed-view memory layouts, queried one after the other on the SAME Volume object (first temperature repeated at the end); graph node sets for thresholds '
     '{default 1e20, 1e7}; evaluation = one (density, temperature); distinct = distinct (density, T) free-energy arrays'
 )
 LEVEL_TEXT = (
@@ -33,8 +33,8 @@ ASSUMPTIONS = ['temperatures up to 1000 K: visited voxels then have F < 1e7 eV b
 KB_EV = 8.617333262e-5
 COUNTS = [0, 1, 2, 7]
 SHAPES = [(2, 2, 1), (1, 3, 2), (2, 2, 2)]
-TEMPS = [1.0, 77.0, 300.0, 1000.0]
-SCALES = [1, 0.125, 1.0 / 3.0, 'float32']
+TEMPS = [1.0, 77.0, 300.0, 1000.0, 20000.0]  # 20000 K: kT > 1 eV
+SCALES = [1, 0.125, 1.0 / 3.0, 'float32', 'fortran', 'transposed-view']
 
 
 def shards(tier, seed):
@@ -46,7 +46,7 @@ def shards(tier, seed):
                 out.append({'shape': list(shape), 'prefix': [first], 'temps': TEMPS, 'graph': True})
         else:
             for pre in itertools.product(range(4), repeat=3):
-                out.append({'shape': list(shape), 'prefix': list(pre), 'temps': TEMPS if tier == 'thorough' else [1.0, 300.0], 'graph': pre[0] % 2 == 0 or tier == 'thorough'})
+                out.append({'shape': list(shape), 'prefix': list(pre), 'temps': TEMPS if tier == 'thorough' else [1.0, 300.0, 20000.0], 'graph': pre[0] % 2 == 0 or tier == 'thorough'})
     return out
 
 
@@ -135,10 +135,15 @@ def run_shard(shard) -> Result:
         base = np.array(vals).reshape(shape)
         # scale: the same density as integer counts, as counts per frame (floats < 1) and as thirds
         for si, scale in enumerate(SCALES if (n <= 6 or sum(vals) % 3 == 0) else SCALES[:1]):
-            data = base if scale == 1 else (base.astype(np.float32) if scale == 'float32' else base * scale)
+            if scale == 'fortran':
+                data = np.asfortranarray(base.astype(float))
+            elif scale == 'transposed-view':
+                data = np.ascontiguousarray(base.astype(float).transpose(2, 1, 0)).transpose(2, 1, 0)  # same values, non-C-contiguous view
+            else:
+                data = base if scale == 1 else (base.astype(np.float32) if scale == 'float32' else base * scale)
             from gemdat.volume import Volume
 
-            vol = Volume(data=data.copy(), lattice=lattice())  # ONE object queried repeatedly (history)
+            vol = Volume(data=data.copy(order='K') if isinstance(scale, str) and scale != 'float32' else data.copy(), lattice=lattice())  # ONE object queried repeatedly (history)
             temps = list(shard['temps']) + [shard['temps'][0]]
             for ti, T in enumerate(temps):
                 viols, key = evaluate(data, T, graph=shard['graph'] and T in (1.0, 300.0) and si in (0, 3), vol=vol)
